@@ -12,6 +12,7 @@ import (
 	"io"
 	"os"
 	"path/filepath"
+	"regexp"
 	"runtime"
 	"runtime/debug"
 	"sort"
@@ -80,7 +81,7 @@ func Main(id, level string, body func(r *Run)) {
 	tier := flag.String("tier", os.Getenv("VERIF_TIER"), "quick|thorough")
 	replay := flag.String("replay", "", "replay file")
 	flag.Parse()
-	logrus.SetOutput(io.Discard) // the library logs warnings on scripted faults; they are not results
+	logrus.SetOutput(io.Discard)       // the library logs warnings on scripted faults; they are not results
 	logrus.SetLevel(logrus.PanicLevel) // and formatting them costs more than the checks themselves
 	if devnull, err := os.OpenFile(os.DevNull, os.O_WRONLY, 0); err == nil {
 		os.Stdout = devnull
@@ -135,19 +136,19 @@ func (r *Run) Cap(what string) {
 	r.caps = append(r.caps, what)
 }
 
-func (r *Run) Rule(s string)            { r.rule = s }
-func (r *Run) Assume(s ...string)       { r.assumptions = append(r.assumptions, s...) }
+func (r *Run) Rule(s string)      { r.rule = s }
+func (r *Run) Assume(s ...string) { r.assumptions = append(r.assumptions, s...) }
 func (r *Run) Extra(k string, v interface{}) {
 	r.mu.Lock()
 	r.extra[k] = v
 	r.mu.Unlock()
 }
 
-func (r *Run) Eval()                  { r.evals.Add(1) }
-func (r *Run) Evals(n int64)          { r.evals.Add(n) }
-func (r *Run) Transition(n int64)     { r.transitions.Add(n) }
-func (r *Run) Validated(n int64)      { r.validated.Add(n) }
-func (r *Run) EvalCount() int64       { return r.evals.Load() }
+func (r *Run) Eval()              { r.evals.Add(1) }
+func (r *Run) Evals(n int64)      { r.evals.Add(n) }
+func (r *Run) Transition(n int64) { r.transitions.Add(n) }
+func (r *Run) Validated(n int64)  { r.validated.Add(n) }
+func (r *Run) EvalCount() int64   { return r.evals.Load() }
 
 func h16(s string) [16]byte {
 	h := sha256.Sum256([]byte(s))
@@ -231,11 +232,16 @@ func (r *Run) Replaying() bool {
 		panic("no replayer for kind " + v.Kind)
 	}
 	var first string
+	hexAddr := regexp.MustCompile(`0x[0-9a-f]+\??`)
 	for i := 0; i < 2; i++ { // determinism: identical observation twice
+		// each replay starts from a clean memo: checks that deduplicate states would otherwise skip the second one
+		r.mu.Lock()
+		r.states, r.nontrivial = map[[16]byte]struct{}{}, map[[16]byte]struct{}{}
+		r.mu.Unlock()
 		e := fn(v.Input)
 		s := "<nil>"
 		if e != nil {
-			s = e.Error()
+			s = hexAddr.ReplaceAllString(e.Error(), "0x?") // stack traces carry addresses
 		}
 		if i == 0 {
 			first = s
